@@ -302,7 +302,7 @@ def run_c13(pid, tier, replay):
         "states": states, "transitions": trans,
         "traces_validated_against_impl": ncases,
         "evaluations": ust["Checks"] + sst["Checks"],
-        "distinct_nontrivial": ust["CasesWithLexError"] + ust["CasesWithNodes"],
+        "distinct_nontrivial": ust["NonTrivial"],
         "rule": "a case = one unit sequence exported by TLC from MCSrcPos (distinct by text) with every boundary's "
                 "expected offset/line/Col8; evaluations = single position comparisons (direct SourcePos, token / "
                 "comment / error / node starts and ends) on the real code; non-trivial = case with a lexical error "
